@@ -146,7 +146,7 @@ func (ex *Exec) tr(e *SExpr, env *Env) *Val {
 		i := ex.tr(e.Args[1], env)
 		switch x.S.K {
 		case KSeq:
-			return &Val{T: "(seq.nth " + x.T + " " + i.T + ")", S: x.S.Elem}
+			return &Val{T: ex.vc.nth(x.T, i.T, x.S.Elem), S: x.S.Elem}
 		case KString:
 			return &Val{T: "(str.to_code (str.at " + x.T + " " + i.T + "))", S: SInt}
 		case KArr:
